@@ -279,7 +279,7 @@ func formatVerdict(t, s string) verdict {
 // c01DeepPositions (thorough tier): the rule sits one level further inside a registered type.
 var c01DeepPositions = []string{"property-of-type", "item-of-type", "type-rule-in-type", "or-types-in-item", "or-rulesets-in-type"}
 
-var c01Positions = []string{"root", "property", "item", "type-shortcut", "type-rule", "or-types", "or-rulesets", "type-of-type", "or-rulesets+other-inline-or"}
+var c01Positions = []string{"root", "property", "item", "type-shortcut", "type-rule", "or-types", "or-diamond", "or-rulesets", "type-of-type", "or-rulesets+other-inline-or"}
 
 func ann(rules []string) string {
 	if len(rules) == 0 {
@@ -319,6 +319,10 @@ func place(t tv, pos string) (*project, verdict) {
 			if litKind(t.Lit) != "boolean" {
 				self = reject
 			}
+		case "or-diamond":
+			if k := litKind(t.Lit); k != "boolean" && k != "null" {
+				self = reject
+			}
 		}
 	}
 	switch pos {
@@ -340,6 +344,14 @@ func place(t tv, pos string) (*project, verdict) {
 			v = accept // the other alternative is a boolean type
 		}
 		return &project{Root: t.Lit + ` // {or: ["@t", "@u"]}`, Types: map[string]string{"@t": typ, "@u": "true"}}, needWitness(v)
+	case "or-diamond":
+		// the value's type comes last, after an alternative that is itself a choice
+		// over the next alternative (which is thus met twice) and another scalar type
+		v := self
+		if k := litKind(t.Lit); k == "boolean" || k == "null" {
+			v = accept // @u / @x take it
+		}
+		return &project{Root: t.Lit + ` // {or: ["@a", "@u", "@t"]}`, Types: map[string]string{"@a": "@u | @x", "@u": "true", "@x": "null", "@t": typ}}, needWitness(v)
 	case "or-rulesets":
 		// inline rule sets need an explicit type; nullable/optional/const/enum are not allowed inside
 		rs := ruleSetFor(t)
@@ -666,6 +678,22 @@ func c01Judge(w *core.W, p *project, exp verdict, family, pos string, t *tv) {
 }
 
 func c01Arrays(w *core.W, idx *int64) {
+	// an empty array under an `or` whose array alternative limits the item count
+	for a := 0; a <= 2; a++ {
+		for _, other := range []string{`{type: "string"}`, `{type: "array", minItems: 5}`} {
+			*idx++
+			if !w.Mine(*idx) {
+				continue
+			}
+			exp := accept
+			if a > 0 {
+				exp = reject
+			}
+			c01Judge(w, &project{Root: fmt.Sprintf(`[] // {or: [{type: "array", minItems: %d}, %s]}`, a, other)}, exp, "or-items", "root", nil)
+			c01Judge(w, &project{Root: fmt.Sprintf("{\n\t\"k\": [] // {or: [%s, {type: \"array\", minItems: %d, maxItems: 9}]}\n}", other, a)}, exp, "or-items", "property", nil)
+			c01Judge(w, &project{Root: fmt.Sprintf(`[] // {or: [{type: "array", maxItems: %d}, %s]}`, a, other)}, accept, "or-items", "root", nil)
+		}
+	}
 	for n := 0; n <= 3; n++ {
 		items := make([]string, n)
 		for i := range items {
